@@ -289,7 +289,69 @@ func factsC05(r *Repo) []Fact {
 			out = append(out, boolFact("stepCounterRestartsOnResume", zero && before, where+": `for step := 0; ; step++` follows the resume branches"))
 		}
 	}
+	out = append(out, c05EagerDrainFact(run, h, where)...)
 	return out
+}
+
+// c05EagerDrainFact: eager mode (Workflows). What does the interrupt site after `tm.waitAll()` (an
+// interrupt-before/after point was hit, a drained task asks for a rerun / interrupted inside) hand to
+// handleInterruptWithSubGraphAndRerunNodes?
+//
+//	0  append(completedTasks, newCompletedTasks...)   (the tasks already computed are dropped, the first
+//	   batch is folded into the channels a second time)
+//	1  newCompletedTasks                              (… and nothing of the first batch is kept)
+//	2  newCompletedTasks, with nextTasks passed on and saved by the handler as pending inputs
+func c05EagerDrainFact(run, handler *ast.FuncDecl, where string) []Fact {
+	const name = "eagerDrainSave"
+	if run == nil {
+		return []Fact{unknownFact(name, "Nat", "99", where, "runner.run not found")}
+	}
+	var site *ast.CallExpr
+	for _, c := range c05Calls(run.Body, "r.handleInterruptWithSubGraphAndRerunNodes") {
+		for _, a := range c.Args {
+			if strings.Contains(exprString(a), "newCompletedTasks") {
+				if site != nil {
+					return []Fact{unknownFact(name, "Nat", "99", where, "more than one call site mentions newCompletedTasks")}
+				}
+				site = c
+				break
+			}
+		}
+	}
+	if site == nil {
+		return []Fact{unknownFact(name, "Nat", "99", where, "no call of handleInterruptWithSubGraphAndRerunNodes mentions newCompletedTasks")}
+	}
+	tasksArg, passesNext := "", false
+	for _, a := range site.Args {
+		t := exprString(a)
+		if strings.Contains(t, "newCompletedTasks") {
+			tasksArg = strings.Join(strings.Fields(t), "")
+		}
+		if t == "nextTasks" {
+			passesNext = true
+		}
+	}
+	// does the handler store the inputs of a task list parameter verbatim (`cp.Inputs[t.nodeKey] = t.input`)?
+	savesPending := false
+	if handler != nil {
+		ast.Inspect(handler.Body, func(n ast.Node) bool {
+			if as, ok := n.(*ast.AssignStmt); ok && len(as.Lhs) == 1 && len(as.Rhs) == 1 &&
+				exprString(as.Lhs[0]) == "cp.Inputs[t.nodeKey]" && exprString(as.Rhs[0]) == "t.input" {
+				savesPending = true
+			}
+			return true
+		})
+	}
+	w := where + ": the call of handleInterruptWithSubGraphAndRerunNodes after `newCompletedTasks, err := tm.waitAll()` is handed `" + tasksArg + "`"
+	switch {
+	case (tasksArg == "append(completedTasks,newCompletedTasks...)" || tasksArg == "append(completedTasks,newCompletedTasks)") && !passesNext:
+		return []Fact{natFact(name, 0, w+"; nextTasks are not passed on")}
+	case tasksArg == "newCompletedTasks" && !passesNext:
+		return []Fact{natFact(name, 1, w+"; nextTasks are not passed on")}
+	case tasksArg == "newCompletedTasks" && passesNext && savesPending:
+		return []Fact{natFact(name, 2, w+" and nextTasks, which the handler saves as pending inputs (`cp.Inputs[t.nodeKey] = t.input`)")}
+	}
+	return []Fact{unknownFact(name, "Nat", "99", w, "unrecognised combination")}
 }
 
 // c05StaleFacts: does the loop's ctx still carry the checkpoint after restoreTasks (so that createTasks ->
